@@ -1237,7 +1237,7 @@ def route_echo(tier, rng, fam='C16'):
     rv = rng.sample(rv, min(len(rv), 80 if tier == 'quick' else 800))
     for x in rv:
         x['ofam'], x['fam'] = x['fam'], fam
-    return out + rv
+    return out + rv + no_metadata_at_all(fam)
 
 
 # ------------------------------------------------------------- gate sweep -----
@@ -1751,4 +1751,33 @@ def stuck_handler_with_deadline(fam):
                 b.step('sopen', c=8, kind='bidi', hp=[dict(o='echo')])
                 b.step('send', c=8, pay='x').step('recv', c=8).step('close', c=8).step('recv', c=8)
                 out.append(b.q().done())
+    return out
+
+
+def no_metadata_at_all(fam):
+    """callers that attach nothing to their context - no metadata, no deadline, not even the harness's call token (the
+    calls are strictly sequential, the harness tells them apart by order) - so the library's "nothing to send" paths run:
+    repeated calls of the same method, unary and streaming, direct and through proxy + demux over both kinds of link"""
+    out = []
+    for topo in ('', 'pd'):
+        for ser in (True, False):
+            where = ('via proxy+demux' if topo else 'direct') + (' (serialising)' if ser else ' (by reference)')
+            kw = dict(ser=ser, notoken=True, **({'topo': 'pd'} if topo else {}))
+            b = B(fam, 'no metadata at all, %s: five unary calls of one method in a row' % where, **kw)
+            for c in range(1, 6):
+                b.step('ucall', c=c, pay='q%d' % c, hp=[ret(pay='p%d' % c)] if c != 3 else [ret(code=5, msg='third')])
+                b.q()
+            out.append(b.done())
+            b = B(fam, 'no metadata at all, %s: streams and unary calls in turn' % where, **kw)
+            b.step('ucall', c=1, pay='warm', hp=[ret(pay='up')])
+            b.step('sopen', c=2, kind='bidi', hp=[dict(o='echo')])
+            b.step('send', c=2, pay='a').step('recv', c=2).step('send', c=2, pay='b').step('recv', c=2).step('close', c=2).step('recv', c=2)
+            b.q()
+            b.step('sopen', c=3, kind='ss', hp=[dict(o='recv'), dict(o='send', pay='s1'), dict(o='send', pay='s2'), dict(o='drain'), ret()])
+            b.step('send', c=3, pay='go').step('close', c=3).step('recv', c=3, n=3)
+            b.q()
+            b.step('ucall', c=4, pay='again', hp=[ret(pay='fine')])
+            b.step('sopen', c=5, kind='cs', hp=[dict(o='drain'), dict(o='send', pay='sum'), ret()])
+            b.step('send', c=5, pay='x').step('send', c=5, pay='y').step('close', c=5).step('recv', c=5, n=2)
+            out.append(b.q().done())
     return out
